@@ -61,6 +61,12 @@ PATTERNS = {
     'CCH->CCF-retyped': (_pat(['C', 'C', 'H'], [(0, 0, 0), (1.5, 0, 0), (2.0, 0.9, 0)], types=[0, 1, 2], type_elements=['C', 'C', 'H', 'F'], labels=['C_R', 'C_3', 'H_', 'F_']),
                          _pat(['C', 'C', 'F'], [(0, 0, 0), (1.5, 0, 0), (2.1, 1.0, 0)], types=[1, 1, 3], type_elements=['C', 'C', 'H', 'F'], labels=['C_R', 'C_3', 'H_', 'F_'],
                               charges=[0.11, 0.22, -0.33], groups=[5, 6, 7], bonds=[(1, 2)], bond_types=[1], tables=True)),
+    # the common atom's coordinates in the two patterns are not bit-identical (separately written files): 2e-7 A apart, i.e. the same
+    # coordinates to far below the 1e-5 A the library itself uses, and on either side of a multiple of 1e-5
+    # (the common atom is NOT the first search atom: the library moves that one to the origin before comparing)
+    'CH->CF-common-atom-2e-7-apart': (_pat(['H', 'C'], [(0.0, 0.0, 0.0), (1.0899951, 0.5, 0.25)]),
+                                      _pat(['C', 'F'], [(1.0899949, 0.5, 0.25), (-0.3, 0.1, 0.0)], charges=[0.25, -0.25], groups=[3, 4],
+                                           bonds=[(0, 1)], bond_types=[1], tables=True, labels=['pC', 'pF'])),
     'H->F': (_pat(['H'], [(0, 0, 0)]), _pat(['F'], [(0, 0, 0)], charges=[-0.1], groups=[0])),
     'CH->nothing': (_pat(['C', 'H'], [(0, 0, 0), (1.1, 0, 0)]), _pat([], [])),
     'CHH->CHH': (_pat(['C', 'H', 'H'], [(0, 0, 0), (1.1, 0, 0), (-0.4, 1.0, 0)]),
